@@ -227,6 +227,15 @@ impl Prop for Storage {
                 };
                 let fired_now = sh.fired();
                 let fault_in_op = fired_now > fired_before;
+                if std::env::var("KVH_DUMP_EFF").is_ok() {
+                    eprintln!("--- {} (fired {} -> {})", what, fired_before, fired_now);
+                    for e in sh.take() {
+                        match e {
+                            shim::Eff::Write { path, off, data, faulted } => eprintln!("   write {} off {} len {} faulted {}", path, off, data.len(), faulted),
+                            other => eprintln!("   {:?}", other),
+                        }
+                    }
+                }
                 if acked && op.is_write() {
                     // stored bits for an insert come from the live engine
                     let bits = if let BOp::Insert { id, .. } = op { b.fetch_document(*id).map(|v| bits_of(&v)) } else { None };
@@ -300,7 +309,7 @@ impl Prop for Storage {
 pub fn run(ctx: &Ctx) {
     ctx.assume("storage faults are injected at the libc boundary (write/fsync/fdatasync/ftruncate/rename under the data directory); the copy that is recovered after a fault is taken outside the watched root");
     run_committed_replays(ctx, &Storage);
-    run_pbt(ctx, &Storage, ctx.tier.pick(600, 20_000));
+    run_pbt(ctx, &Storage, ctx.tier.pick(12_000, 250_000));
 }
 
 pub fn replay(ctx: &Ctx, v: &serde_json::Value) -> Option<i32> {
